@@ -99,6 +99,12 @@ CHECKS.update({
   text="Doctype + every token string of length <=4/5 over an 18-token tag-soup alphabet (two prefixes): cursor tree vs. independent recursive walk of html.Parse; deep/wide families; doctype requirement.",
   note="golang.org/x/net/html is the HTML5 algorithm the statement names (trusted).",
   ref="2 C17"),
+ "C19": dict(
+  level="exploration",
+  technique="bounded-exhaustive enumeration of reflect-generated target types x tag expressions x nodes against values derived from separate Exec calls",
+  text="40 field/element types (all supported kinds, pointer chains, nestings, and the unsupported kinds) x 22/30 tag expressions x every element of 3 documents as *T and **T; slice targets over node-sets of 0-3 nodes in both orders; 36 ill-shaped targets and results; expected values from separate Exec calls plus the statement's conversion table; never a panic; untagged fields untouched.",
+  note="Exec is trusted here (verified by C01-C07). Unrepresentable float->int conversions only required not to panic.",
+  ref="2 C19"),
 })
 
 NOT_YET = {}
